@@ -54,6 +54,22 @@ func scenC01Pub(r *Run) {
 				"attributedTo": "https://h1.example/\u001b[2J", "url": Doc{"type": "Link", "href": "https://h\u0007/" + hb, "mediaType": hb}, "attachment": []any{Doc{"type": "Image", "url": "::" + hb, "name": hb + "alt"}}})
 		}
 		urls = append(urls, u)
+		// healthy items that reach the hostile exchange through a secondary fetch: the error is
+		// then shown inline (activity header, actor footer, post header/parents/comments)
+		carrier := fmt.Sprintf("https://h1.example/carrier/%d", i)
+		switch t.Draw(5) {
+		case 0:
+			f.Serve(carrier, Doc{"id": carrier, "type": "Like", "actor": u, "object": tn.Posts[0].ID})
+		case 1:
+			f.Serve(carrier, Doc{"id": carrier, "type": "Person", "name": "carrier", "preferredUsername": "c", "outbox": u, "icon": u})
+		case 2:
+			f.Serve(carrier, Doc{"id": carrier, "type": "Note", "name": "carrier", "content": "x", "attributedTo": []any{u}, "audience": u, "inReplyTo": u, "replies": u})
+		case 3:
+			f.Serve(carrier, Doc{"id": carrier, "type": "Announce", "actor": tn.Actors[0].ID, "object": u})
+		case 4:
+			f.Serve(carrier, Doc{"id": carrier, "type": "OrderedCollection", "orderedItems": []any{u, tn.Posts[0].ID}, "first": u})
+		}
+		urls = append(urls, carrier)
 	}
 	r.Describe("scenario", "c01_pub")
 	r.Describe("objects", len(urls))
